@@ -722,8 +722,20 @@ struct EventVisitor
         if(count == stop_at) stopped = true;
     }
     template<typename T> std::string val(T t, std::integral_constant<int, 0>) { return rt::Out::hex64(rt::bits(t.value())); }
-    template<typename T> std::string val(T t, std::integral_constant<int, 1>) { return rt::Out::hex64(rt::enum_bits(t)); }
-    template<typename T> std::string val(T t, std::integral_constant<int, 2>) { return rt::Out::hex64(rt::bits(*t)); }
+    template<typename T> std::string val(T t, std::integral_constant<int, 1>)
+    {
+        // enum: the value and the enumerator visit(enum) reports for it
+        EnumVis e;
+        sbepp::visit(t, e);
+        return rt::Out::hex64(rt::enum_bits(t)) + " V " + (e.calls == 1 ? e.name : std::string("XERR(on_enum_value calls)"));
+    }
+    template<typename T> std::string val(T t, std::integral_constant<int, 2>)
+    {
+        // set: the value and every choice visit(set) reports
+        SetVis sv;
+        sbepp::visit(t, sv);
+        return rt::Out::hex64(rt::bits(*t)) + " S " + (sv.s.empty() ? std::string("-") : sv.s);
+    }
     template<typename T> std::string val(T t, std::integral_constant<int, 3>) { return rt::Out::hexbytes(t.data(), o.clamp(t.data(), t.size())); }
     template<typename T> bool leaf(T t, const char* name, std::false_type)
     {
